@@ -166,6 +166,29 @@ fn java_sections(rng: &mut Rng, inputs: &mut [Input]) {
     }
 }
 
+/// a line with 255 / 256 / 257 / 300 branch outcomes in two of the lcov inputs (mutation miss N7: a
+/// writer that numbers the slots modulo 256 – the shard reports then carry fewer slots than the
+/// direct report)
+fn wide_branch_lines(rng: &mut Rng, inputs: &mut [Input]) -> bool {
+    let mut done = 0;
+    for inp in inputs.iter_mut() {
+        if inp.format != "Info" || done == 2 {
+            continue;
+        }
+        let n = *rng.pick(&[255usize, 256, 257, 300]);
+        let mut sec = String::from("SF:src/a.c\n");
+        for j in 0..n {
+            sec.push_str(&format!("BRDA:9,0,{},{}\n", j, if j + 1 == n || rng.chance(1, 3) { "1" } else { "-" }));
+        }
+        sec.push_str("end_of_record\n");
+        inp.bytes.extend_from_slice(sec.as_bytes());
+        inp.id = fnv_id("Info", &inp.bytes);
+        inp.parsed = grcov::parse_lcov(inp.bytes.clone(), true).expect("widened tracefile is well formed");
+        done += 1;
+    }
+    done > 0
+}
+
 /// OR of branch vectors (the longer tail kept)
 fn zip_or(a: &[bool], b: &[bool]) -> Vec<bool> {
     (0..a.len().max(b.len())).map(|i| a.get(i).copied().unwrap_or(false) || b.get(i).copied().unwrap_or(false)).collect()
@@ -205,6 +228,9 @@ pub fn run(rep: &mut Report) {
         let k = rng.range(2, 8) as usize;
         let mut inputs = gen_inputs(&mut rng, k);
         java_sections(&mut rng, &mut inputs);
+        if c % 12 == 5 && wide_branch_lines(&mut rng, &mut inputs) {
+            rep.count("inputs.wide_branch_line_255_to_300_slots");
+        }
         write_inputs(&dir, &inputs);
         let with_src = rng.chance(1, 3);
         // with a source dir the runs are made with --branch (the --branch-off finding is about the
